@@ -29,6 +29,9 @@ CHECKS = {
  "C09": ("exploration", "master-side history vs window reference byte memory + online protocol monitors on every slave-side output, per partner class",
          "Every bridge / AXI-Lite converter / AXI-Lite SRAM configuration (38) x partner classes (LiteX-like single-outstanding partners, which must be clean; hostile-but-legal partners that queue, delay, back-pressure; error-injecting slaves) x read/write/burst histories. Reads are checked byte-wise against a reference memory that admits every value a time-overlapping write could give; a raised valid / Wishbone request on the slave side must be held unchanged until accepted; slave errors must surface at the master.",
          "trusted: simulator, BFMs (lib/bench/*.py), AMBA address model, WindowRefMem; Wishbone slaves raise err together with ack (LiteX convention)", "4 C09"),
+ "C10": ("exploration", "burst parameter enumeration as workload; beat stream vs independent AMBA address equations; converters vs reference memory per burst-feature class",
+         "AXIBurst2Beat: every legal (offset, size, type, len) tuple of a 32- and 64-bit bus (6372 quick, all offsets 0..63 thorough) under several ready patterns, each beat address compared at transfer-size granularity with lib/models/axi.py, first/last/id and the single request handshake checked. AXIUp/Down/Converter at ratios 2/4/8 between AXI master and memory BFMs, one burst feature class per history (aligned / incr / unaligned / narrow / wrap / fixed).",
+         "trusted: simulator, lib/models/axi.py (AMBA A3.4.1 equations), AXI BFMs", "4 C10"),
 }
 
 def main():
